@@ -42,7 +42,8 @@ PROPS = {
         'assumptions': ['store clock and Redis server clock agree', 'timeouts are non-negative (uint32 seconds in the configuration)'],
     },
     'C01': {
-        'theorems': ['no_hidden_state', 'ok_justified', 'fault_never_ok', 'run_ok_justified', 'run_matches_driver', 'no_cookie_never_ok', 'callback_never_ok', 'chain_ok_needs_all', 'redis_prefix_safe'],
+        'theorems': ['no_hidden_state', 'ok_justified', 'fault_never_ok', 'run_ok_justified', 'run_matches_driver', 'no_cookie_never_ok', 'callback_never_ok', 'chain_ok_needs_all', 'redis_prefix_safe', 'code_expiry_test', 'code_handler_error_no_verdict'],
+        'translated': ['areRequiredTokensExpired', 'Check'],
         'trusted': ['hand-written interaction-tree model of Process/redirectToIDP/retrieveTokens/refreshToken (AuthModel/Oidc/Handler.lean), tied to the code by the differential run (response + ordered action trace per request line)', 'oracles: jwt parsing and claims (jwx), JWS verification (checked against an independent stdlib RSA verification in the harness), SHA-256/base64url; url.Parse of the callback URI', 'store-level atomicity of one Redis method is assumed except in redis_prefix_safe'],
     },
     'C02': {
